@@ -734,3 +734,66 @@ Proof.
   apply G. unfold AvInv, init_picker. cbn [avail pieces].
   induction Hh as [|p r Hp Hr IH]; [reflexivity|]. cbn [count_held fold_right]. fold (count_held r). unfold held. rewrite Hp. cbn. lia.
 Qed.
+
+(* ---------- C10: an idle unchoking holder of a needed, unrequested piece always gets a pick ---------- *)
+Lemma indexed_has s i : in_range s i = true -> In (i, get_piece s i) (indexed s).
+Proof.
+  unfold in_range, indexed, get_piece, zlen. intros H.
+  assert (Hn : (Z.to_nat i < length (pieces s))%nat) by lia.
+  assert (G : forall (l : list ppiece) (a n : nat), (n < length l)%nat ->
+            In (Z.of_nat (a + n), nth n l default_piece) (combine (map Z.of_nat (seq a (length l))) l)).
+  { induction l as [|x r IH]; intros a n Hl; cbn [length] in Hl; [lia|]. cbn [length seq map combine]. destruct n as [|n].
+    - left. rewrite Nat.add_0_r. reflexivity.
+    - right. replace (a + S n)%nat with (S a + n)%nat by lia. apply IH. lia. }
+  specialize (G (pieces s) 0%nat (Z.to_nat i) Hn). cbn [Nat.add] in G. rewrite Z2Nat.id in G by lia. exact G.
+Qed.
+
+Lemma cands_has s c i : in_range s i = true -> c (get_piece s i) = true -> In (i, get_piece s i) (cands s c).
+Proof. intros Hr Hc. unfold cands. apply filter_In. split; [apply indexed_has; exact Hr|exact Hc]. Qed.
+
+Lemma first_cand_some s c i : in_range s i = true -> c (get_piece s i) = true -> exists j, first_cand s c = Some j.
+Proof.
+  intros Hr Hc. unfold first_cand. pose proof (cands_has s c i Hr Hc) as H. destruct (cands s c) as [|ip r]; [destruct H|eauto].
+Qed.
+
+Theorem idle_holder_gets_a_pick s pe i : 1 <= maxdup s ->
+  let P := get_peer (peers s) pe in let p := get_piece s i in
+  pe_downloading P = false -> pe_choking P = false ->
+  in_range s i = true -> p_done p = false -> p_writing p = false -> In pe (p_having p) -> p_req p = [] ->
+  pick_possible s (fst (find_piece s pe)) = true.
+Proof.
+  intros Hm P p Hd Hc Hr Hdone Hwr Hhave Hreq.
+  assert (Hopen : open_ p = true) by (unfold open_; rewrite Hdone, Hwr; reflexivity).
+  assert (Hmem : mem pe (p_having p) = true) by (apply mem_true; exact Hhave).
+  assert (Cun : c_unreq_has pe p = true) by (unfold c_unreq_has; rewrite Hopen, Hreq, Hmem; reflexivity).
+  assert (Ceg : c_endgame s pe p = true).
+  { unfold c_endgame. rewrite Hopen, Hreq, Hmem. unfold zlen. cbn [length Z.of_nat andb]. destruct (0 <? maxdup s) eqn:E; [reflexivity|lia]. }
+  unfold find_piece. fold P. rewrite Hd, Hc. cbn [negb andb].
+  destruct (if sequential s && true then first_cand s (c_edge pe) else None) as [j|]; [reflexivity|].
+  destruct (if sequential s then lowest_af s pe (pe_af P) None else first_af s pe (pe_af P)) as [j|]; [reflexivity|].
+  destruct (endgame s).
+  - cbn [fst pick_possible]. pose proof (cands_has s (c_endgame s pe) i Hr Ceg) as H. destruct (cands s (c_endgame s pe)); [destruct H|reflexivity].
+  - destruct (sequential s).
+    + destruct (first_cand_some s (c_unreq_has pe) i Hr Cun) as (j & ->). reflexivity.
+    + pose proof (cands_has s (c_unreq_has pe) i Hr Cun) as H. destruct (cands s (c_unreq_has pe)) as [|x r] eqn:E; [destruct H|].
+      cbn [fst pick_possible]. rewrite E. reflexivity.
+Qed.
+
+(* hence "no piece" is not an answer the picker may give in that situation *)
+Corollary no_pick_is_illegal s pe i : 1 <= maxdup s ->
+  let P := get_peer (peers s) pe in let p := get_piece s i in
+  pe_downloading P = false -> pe_choking P = false ->
+  in_range s i = true -> p_done p = false -> p_writing p = false -> In pe (p_having p) -> p_req p = [] ->
+  pick_check s pe None = None.
+Proof.
+  intros Hm P p H1 H2 H3 H4 H5 H6 H7. unfold pick_check.
+  pose proof (idle_holder_gets_a_pick s pe i Hm H1 H2 H3 H4 H5 H6 H7) as H. destruct (find_piece s pe) as [st eg]. cbn [fst] in H. rewrite H. reflexivity.
+Qed.
+
+(* with an end-game limit of 0 the statement is false: once end-game mode is on, nothing is ever picked *)
+Example endgame_limit_zero_starves :
+  let p := {| p_done := false; p_writing := false; p_having := [7]; p_req := []; p_snub := []; p_chok := []; p_head := false; p_tail := false |} in
+  let s := {| pieces := [p]; peers := [(7, {| pe_choking := false; pe_downloading := false; pe_af := []; pe_piece := None |})];
+              avail := 1; endgame := true; sequential := false; maxdup := 0 |} in
+  pick_possible s (fst (find_piece s 7)) = false.
+Proof. vm_compute. reflexivity. Qed.
